@@ -132,7 +132,7 @@ Definition or_ctx (a b : option (ctxsrc * ctx)) := match a with Some _ => a | No
 Definition one_thread (d : dump) (i : nat) (t : thread) (req : option nat) : callstack * option nat :=
   let id := t_id t in
   if oz_eqb (dump_tid d) id then
-    ({| cs_id := id; cs_name := None; cs_info := CsDumpThreadSkipped; cs_ctx := None |}, req)
+    ({| cs_id := id; cs_name := get_name (d_names d) id; cs_info := CsDumpThreadSkipped; cs_ctx := None |}, req)
   else
     let is_req := oz_eqb (target_tid d) id in
     let c := if is_req then or_ctx (tag_ctx FromException (exc_ctx d)) (tag_ctx FromThread (t_ctx t))
